@@ -178,6 +178,38 @@ fn catalogue(seed: u64) -> Vec<Case> {
             }
         }
     }
+    // bodies around the DEFAULT size limit (no JsonConfig / DefaultBodyLimit registered), with and without a
+    // Content-Length header, in one piece and in several
+    for framework in ["actix", "axum"] {
+        for (target, doc) in [("Value", &br#"{"a":1}"#[..]), ("Shape", &br#"{"type":"circle","radius":9}"#[..])] {
+            for over in [0usize, 1] {
+                for with_len in [true, false] {
+                    for chunks in [1usize, 5] {
+                        let total = gen::DEFAULT_LIMIT + over;
+                        out.push(Case {
+                            target,
+                            error: if chunks == 1 { "JsonError" } else { "E422" },
+                            req: Req::Json {
+                                framework,
+                                req: JsonReq {
+                                    method: "POST",
+                                    content_type: Some(b"application/json".to_vec()),
+                                    content_length: with_len.then(|| total.to_string()),
+                                    prefix: doc.to_vec(),
+                                    pad: total - doc.len(),
+                                    suffix: vec![],
+                                    cfg: gen::Cfg::Default,
+                                    chunks,
+                                    fail: false,
+                                    class: if over == 1 { "oversize:default_limit+1".into() } else { "at_limit:valid".into() },
+                                },
+                            },
+                        });
+                    }
+                }
+            }
+        }
+    }
     const QS: &[(&str, &str)] = &[
         ("q=kefir", "valid"),
         ("q=kefir&limit=5&offset=-3&filter=a%20b&sortBy=price%3Aasc", "valid"),
@@ -206,6 +238,33 @@ fn catalogue(seed: u64) -> Vec<Case> {
         ("q=a=b", "noise"),
         ("q=x&&limit=3&", "noise"),
         ("q[]=1&q[]=2", "illtyped"),
+        // delimiters at the edges
+        ("?q=kefir", "edges"),
+        ("??q=kefir", "edges"),
+        ("?", "edges"),
+        ("??", "edges"),
+        ("?=", "edges"),
+        ("?&q=x", "edges"),
+        ("&q=kefir", "edges"),
+        ("=q=kefir", "edges"),
+        (";q=kefir", "edges"),
+        ("#q=kefir", "edges"),
+        ("%3Fq=kefir", "edges"),
+        ("+q=kefir", "edges"),
+        (" q=kefir", "edges"),
+        ("/q=kefir", "edges"),
+        ("q=kefir?", "edges"),
+        ("q=kefir&", "edges"),
+        ("q=kefir&&", "edges"),
+        ("q=kefir=", "edges"),
+        ("q=kefir;", "edges"),
+        ("q=kefir#", "edges"),
+        ("q=kefir&?limit=3", "edges"),
+        ("q=kefir?limit=3", "edges"),
+        ("q=kefir;limit=3", "edges"),
+        ("q=kefir&&limit=3", "edges"),
+        ("q==kefir", "edges"),
+        ("q=?kefir", "edges"),
     ];
     for &target in QUERY_TARGETS {
         for &error in QUERY_ERRORS {
@@ -311,6 +370,16 @@ fn account(acc: &mut Acc, c: &Case, p: &PairResult) {
     };
     acc.count(&format!("{}.{}", p.framework, p.outcome_class));
     acc.count(&format!("class.{}", class.split(':').next().unwrap_or("")));
+    if let Req::Json { req, framework } = &c.req {
+        if req.cfg == gen::Cfg::Default && req.body_len() == gen::DEFAULT_LIMIT + 1 {
+            let cl = match &req.content_length {
+                None => "without_content_length",
+                Some(v) if *v == req.body_len().to_string() => "with_true_content_length",
+                Some(_) => "with_other_content_length",
+            };
+            acc.count(&format!("default_limit_plus_1.{framework}.{cl}"));
+        }
+    }
     acc.note("request_classes", &class);
     acc.note("instantiations", &format!("{}<{},{}>", p.framework, c.target, c.error));
     if !ct.is_empty() || matches!(c.req, Req::Json { .. }) {
